@@ -6,6 +6,7 @@ import (
 	"net/netip"
 	"os"
 	"path/filepath"
+	"time"
 
 	"github.com/irai/packet"
 	"github.com/irai/packet/handlers/arp_spoofer"
@@ -35,10 +36,12 @@ type stack struct {
 
 var stackSeq int
 
-func newStack(scratch string, nic mon.NIC) *stack {
+func newStack(scratch string, nic mon.NIC) *stack { return newStackD(scratch, nic, 0, 0, 0) }
+
+func newStackD(scratch string, nic mon.NIC, probe, offline, purge time.Duration) *stack {
 	st := &stack{rec: mon.NewRecorder(16)}
 	var err error
-	if st.s, err = mon.NewSession(st.rec, nic, 0, 0, 0); err != nil {
+	if st.s, err = mon.NewSession(st.rec, nic, probe, offline, purge); err != nil {
 		panic("HARNESS BUG: " + err.Error())
 	}
 	if st.arp, err = arp_spoofer.New(st.s); err != nil {
